@@ -22,7 +22,13 @@ func pagerHTML(g *docGen, style string, n, k int) string {
 	}
 	// many themes put a label for screen readers next to the number
 	label := g.pick("", "", "", `<span class="screen-reader-text">Page </span>`, `<span class="sr-only">Page</span> `, `<span class="visually-hidden">page </span>`)
-	for i := 1; i <= n; i++ {
+	// newest first: some archives count their pages down
+	desc := g.rng.Intn(4) == 0
+	for j := 1; j <= n; j++ {
+		i := j
+		if desc {
+			i = n + 1 - j
+		}
 		if i == k {
 			sb.WriteString(fmt.Sprintf("<strong>%d</strong> ", i))
 		} else {
@@ -82,7 +88,8 @@ func richDoc(id int, g *docGen) string {
 	// (the same <title>, the same pager) still differ in everything else
 	g.tok = (id % 997) * 1000
 	var head, body strings.Builder
-	head.WriteString("<title>" + g.words(3) + " - " + g.words(2) + "</title>")
+	pageTitle := g.words(3) + " - " + g.words(2)
+	head.WriteString("<title>" + pageTitle + "</title>")
 	styled := false
 	story := func(n int) string {
 		var sb strings.Builder
@@ -125,7 +132,8 @@ func richDoc(id int, g *docGen) string {
 		head.WriteString(ogHead(g) + `<meta name="author" content="Ie Author"><meta name="title" content="Ie Title">`)
 		body.WriteString(schemaBody(g) + "<div>" + story(3) + "</div>")
 	case 6: // images: lead image candidates, srcset, lazy
-		body.WriteString(`<img src="/i/m1.png"><figure><img src="/i/m2.png" srcset="/i/m2-2x.png 2x"><figcaption>` + g.words(4) + `</figcaption></figure>` +
+		// a hero image above the headline, the headline repeating the page title
+		body.WriteString(`<img src="/i/m1.png" width="800" height="450"><h1>` + pageTitle + `</h1><figure><img src="/i/m2.png" srcset="/i/m2-2x.png 2x"><figcaption>` + g.words(4) + `</figcaption></figure>` +
 			"<div>" + story(1) + `<img src="/i/m3.png" srcset="/i/m3-a.png 480w, /i/m3-b.png 800w">` + story(2) + `<span class="lazy-image-placeholder" data-src="/i/m4.png"></span>` +
 			// several lazy-loading attributes on one image: the first of the documented order wins, every time
 			`<img data-url="/i/m5c.png" data-original="/i/m5b.png" data-src="/i/m5a.png" src="data:image/gif;base64,R0lGOD">` +
